@@ -12,22 +12,22 @@ TECHNIQUE = {
  'C01': 'runtime monitoring: boundary monitor on bytes/bin/hex/len/from_bytes/from_hex + ride-along codec monitor, independent MIDI 1.0 reference encoder, exhaustive enumeration of the non-sysex space; two-thread first-use and overlap schedules in a child interpreter (deterministic scheduler on sys.monitoring); unusual numeric types; classes that inherit the codec (frozen, user subclass); shards run under 8 interpreter environments (-O, warnings as errors, C locale, library busy elsewhere, ...); generic verdicts for escaped library exceptions and calls stuck inside the library',
  'C02': 'runtime monitoring: boundary monitor on from_bytes/from_hex, reference acceptor + exception-class contract, exhaustive enumeration of all strings of length <= 3, perturbation sequences, decoders inherited by frozen/user classes, RtMidi delivery through a stand-in extension module, two-thread overlap schedules',
  'C03': 'runtime monitoring: invariant monitor (independent validity predicate + before/after snapshots) round every checked entry point incl. parse_string(_stream), grid + assignment histories with a shadow model interleaved with rejected edits and everyday handling (copies, pickle, hashed frozen twin); two-thread first-construction schedules',
- 'C04': 'runtime monitoring: relational monitor on parse_all/feed/feed_byte/get_message polling (totality, validity, real-time exactly-once, position-exact subsequence), exhaustive class-alphabet strings + size ladders, entry points x iterable kinds, Parser subclasses, nested and alternating parsers',
- 'C05': 'runtime monitoring: shadow-parser monitor (byte-at-a-time twin) + FIFO/pending counter model over all cuts, container types (incl. wide-item arrays) and retrieval interleavings, Tokenizer used directly, feeds that fail half way, queue fed from several threads, clocks that jump (wrappers installed before import)',
- 'C06': 'runtime monitoring: relational monitor parse(P+enc(M)) == parse(P)+[M] with the reference encoder, all prefixes x boundary messages, split feeds, failed feeds, nested calls, retrieval by get_message / interrupted loops; two-thread first-parse schedules',
+ 'C04': 'runtime monitoring: relational monitor on parse_all/feed/feed_byte/get_message polling (totality, validity, real-time exactly-once, position-exact subsequence), exhaustive class-alphabet strings + size ladders, entry points x iterable kinds, Parser subclasses, nested and alternating parsers, two parsers in two threads (child interpreter, one-preemption schedules)',
+ 'C05': 'runtime monitoring: shadow-parser monitor (byte-at-a-time twin) + FIFO/pending counter model over all cuts, container types (incl. wide-item arrays) and retrieval interleavings, Tokenizer used directly, feeds that fail half way, queue fed from several threads, clocks that jump (wrappers installed before import), unusual integer types as bytes, two parsers in two threads',
+ 'C06': 'runtime monitoring: relational monitor parse(P+enc(M)) == parse(P)+[M] with the reference encoder, all prefixes x boundary messages, split feeds, failed feeds, nested calls, retrieval by get_message / interrupted loops, messages delivered in pieces; two-thread first-parse and overlap schedules',
  'C07': 'runtime monitoring: monitor at save/load with an independent end_of_track folding model, save-must-raise table, byte-mutation fixed-point checks, file modes, track chunks beyond 1 MB, failed saves followed by valid ones, tracks of immutable (frozen) messages',
  'C08': 'runtime monitoring: bytes of save() parsed by an independent strict SMF reference decoder; alternative legal encodings from a reference encoder loaded under clip/debug/header-size configurations; overlapping save/load schedules of two threads; overwriting by filename; short-read streams; frozen and mixed-origin messages',
  'C09': 'runtime monitoring: boundary monitor on MetaMessage()/bytes/from_bytes and the track reader against an independent meta reference codec, exhaustive finite domains, unusual integer types, subclasses, samples repeated after perturbing calls; every type through a saved file under several charsets (plain, frozen, used before); two-thread first-use schedules',
  'C10': 'runtime monitoring: recorded client-boundary histories + wire log under a deterministic line-/instruction-granularity thread scheduler (sys.monitoring), 18 programs, bounded-preemption enumeration + random/PCT schedules + free-running stress, offline history checker (exactly-once, per-sender FIFO, integrity, lock discipline); mixed consumer-call sequences; blocked get() with seeded pauses',
  'C11': 'runtime monitoring: device-double event log + sequential lifecycle model over all operation sequences and device self-close positions, sleep-count bounded progress, wild wall clocks with the real sleep(), sockets (reset, broken pipe, PortServer close), devices that close the port from inside a failing write (autoreset), scheduler for overlapping close/send/iter_pending with lock-wait attribution',
- 'C12': 'runtime monitoring: boundary monitor on merge_tracks/merged_track with an independent absolute-time merge model and input snapshots, re-merge histories',
- 'C13': 'runtime monitoring: monitor on iter/length/play with a virtual clock and recorded sleeps, exact rational tempo-map oracle, consumer-delay patterns',
+ 'C12': 'runtime monitoring: boundary monitor on merge_tracks/merged_track with an independent absolute-time merge model and input snapshots, re-merge histories, thousands of tracks, merges after failed spec registrations',
+ 'C13': 'runtime monitoring: monitor on iter/length/play with a virtual clock and recorded sleeps, exact rational tempo-map oracle, consumer-delay patterns, maximal deltas, texts in several scripts and charsets, two files measured by two threads',
  'C14': 'runtime monitoring: boundary monitor on str/from_str/dict/from_dict/repr/parse_string(_stream): round-trip equality, invalid-text grammar classes, line-numbered stream model, hashed frozen twins, str-subclass types, rejected edits before conversion; two-thread first-conversion schedules',
  'C15': 'runtime monitoring: boundary monitor on copy/freeze/thaw/hash: fresh-construction equivalence, aliasing snapshots, hash/dict-key checks on independently built twins, hash-colliding values, re-registered custom specs, two-thread overlap schedules',
  'C16': 'runtime monitoring: differential monitor - every observation on an edited MidiFile compared with the same observation on a freshly built twin, contents snapshot before/after every observation, strict reference decoding of every save, consumer edits, refused edits, save from another thread, over random edit/observe histories; the same contents as frozen / already-encoded messages',
  'C17': 'runtime monitoring + fault injection: default-charset probe after every load/save, payload bytes via reference SMF decoder, faults at every byte/read/write/message and at every executed line (sys.monitoring failpoints)',
  'C18': 'runtime monitoring: real stream sockets (socketpair, TCP loopback, forked peer killed with SIGKILL), every cut offset x segmentation, delivery log against the known stream, sleep-count bounds, client turnover on a server',
- 'C19': 'runtime monitoring: boundary monitor on write_syx_file/read_syx_file with real temporary files against a filter-and-preserve model, whitespace layouts, invalid texts, call sequences',
+ 'C19': 'runtime monitoring: boundary monitor on write_syx_file/read_syx_file with real temporary files against a filter-and-preserve model, whitespace layouts, invalid texts, call sequences, messages born in other ways, dumps beyond 64 KiB',
  'C20': 'runtime monitoring: call/import log of recording fake backend modules against an independent precedence model over the complete configuration grid, set_backend and environment sequences, shared Backend objects across threads with a stack-sample verdict for blocked first use',
 }
 props = [json.loads(line) for line in open(os.path.join(HERE, 'properties.jsonl'))]
